@@ -29,7 +29,7 @@ class ShapelyPolygon(Domain):
     def __init__(self, space, vertices=None, shapely_polygon=None):
         assert space.dim == 2
         super().__init__(space, dim=2)
-        self.necessary_variables = self.set_necessary_variables()
+        self.set_necessary_variables()
         if isinstance(shapely_polygon, s_geo.Polygon):
             self.polygon = shapely_polygon
         elif vertices:
@@ -52,7 +52,7 @@ class ShapelyPolygon(Domain):
             inside[i] = self.polygon.contains(point)
         return inside
 
-    def bounding_box(self, device="cpu"):
+    def bounding_box(self, params=Points.empty(), device="cpu"):
         bounds = torch.tensor(self.polygon.bounds, device=device)
         bounds[[1, 2]] = bounds[[2, 1]]
         return bounds
